@@ -226,47 +226,52 @@ def run(prog: Program, res: Result) -> None:  # noqa: PLR0912, PLR0915
     res.floor("C12.R3", "join() calls in expression printers", n_join, 5)
 
     # ------------------------------------------------------------------ R4 segment quoting
-    res.rule("C12.R4", "Path.__str__ emits a string segment bare (or after a dot) only under an RE_PROPERTY.fullmatch guard - including the first segment")
-    path = prog.cls("liquid2.builtin.expressions.Path")
-    ps = path.methods.get("__str__")
-    if ps is None:
-        raise AnalysisError("Path.__str__ vanished")
+    res.rule("C12.R4", "Path.__str__ and its token-level sibling PathToken.__str__ emit a string segment bare (or after a dot) only under an RE_PROPERTY.fullmatch guard - including the first segment")
     n_seg = 0
-    for n in ast.walk(ps.node):
-        emitted: list[tuple[ast.AST, ast.AST]] = []
-        if isinstance(n, ast.Assign) and isinstance(n.value, ast.List):
-            emitted += [(n, e) for e in n.value.elts]
-        if isinstance(n, ast.Call) and isinstance(n.func, ast.Attribute) and n.func.attr == "append" and n.args:
-            emitted.append((n, n.args[0]))
-        for stmt, e in emitted:
-            sk = _fstring_skeleton(e)
-            bare = False
-            var = None
-            if isinstance(e, ast.Name):
-                bare, var = True, e.id
-            elif isinstance(e, ast.Call) and isinstance(e.func, ast.Name) and e.func.id == "str" and e.args:
-                bare = True
-                var = norm(e.args[0])
-            elif sk is not None and not sk.startswith("["):
-                bare = True
-                fv = [v for v in getattr(e, "values", []) if isinstance(v, ast.FormattedValue)]
-                var = norm(fv[0].value) if fv else None
-            if not bare:
-                continue
-            n_seg += 1
-            guarded = False
-            for a in ps.module.ancestors(stmt):
-                if isinstance(a, ast.If) and "RE_PROPERTY.fullmatch" in norm(a.test) and any(stmt is x for b in a.body for x in ast.walk(b)):
-                    guarded = True
-                if a is ps.node:
-                    break
-            site = f"{path.file}:{stmt.lineno} Path.__str__"
-            what = f"`{norm(e, 40)}` emitted bare only when it is a property name"
-            if guarded:
-                res.ok("C12.R4", site, what, "under RE_PROPERTY.fullmatch")
-            else:
-                res.fail("C12.R4", file=path.file, line=stmt.lineno, qualname="Path.__str__", construct=f"bare segment {norm(e, 40)}", message=f"Path.__str__ prints `{var}` without checking it is a plain property name: `['a b']` serialises as `a b`, which parses as something else", what=what)
-    res.floor("C12.R4", "bare segment emissions", n_seg, 2)
+    for path in (prog.cls("liquid2.builtin.expressions.Path"), prog.cls("liquid2.token.PathToken")):
+        ps = path.methods.get("__str__")
+        if ps is None:
+            raise AnalysisError(f"{path.name}.__str__ vanished")
+        for n in ast.walk(ps.node):
+            emitted: list[tuple[ast.AST, ast.AST]] = []
+            if isinstance(n, ast.Assign) and isinstance(n.value, ast.List):
+                emitted += [(n, e) for e in n.value.elts]
+            if isinstance(n, ast.Call) and isinstance(n.func, ast.Attribute) and n.func.attr == "append" and n.args:
+                emitted.append((n, n.args[0]))
+            for stmt, e in emitted:
+                sk = _fstring_skeleton(e)
+                bare = False
+                var = None
+                if isinstance(e, ast.Name):
+                    bare, var = True, e.id
+                elif isinstance(e, ast.Call) and isinstance(e.func, ast.Name) and e.func.id == "str" and e.args:
+                    bare = True
+                    var = norm(e.args[0])
+                elif sk is not None and not sk.startswith("["):
+                    bare = True
+                    fv = [v for v in getattr(e, "values", []) if isinstance(v, ast.FormattedValue)]
+                    var = norm(fv[0].value) if fv else None
+                if not bare:
+                    continue
+                n_seg += 1
+                guarded = False
+                for a in ps.module.ancestors(stmt):
+                    if isinstance(a, ast.If) and "RE_PROPERTY.fullmatch" in norm(a.test):
+                        t = norm(a.test)
+                        negative = "not RE_PROPERTY.fullmatch" in t
+                        in_body = any(stmt is x for b in a.body for x in ast.walk(b))
+                        in_else = any(stmt is x for b in a.orelse for x in ast.walk(b))
+                        if (in_body and not negative) or (in_else and negative and " or " not in t):
+                            guarded = True
+                    if a is ps.node:
+                        break
+                site = f"{path.file}:{stmt.lineno} {path.name}.__str__"
+                what = f"`{norm(e, 40)}` emitted bare only when it is a property name"
+                if guarded:
+                    res.ok("C12.R4", site, what, "under RE_PROPERTY.fullmatch")
+                else:
+                    res.fail("C12.R4", file=path.file, line=stmt.lineno, qualname=f"{path.name}.__str__", construct=f"bare segment {norm(e, 40)}", message=f"{path.name}.__str__ prints `{var}` without checking it is a plain property name: `['a b']` serialises as `a b`, which parses as something else", what=what)
+    res.floor("C12.R4", "bare segment emissions", n_seg, 4)
 
     # ------------------------------------------------------------------ R5 whitespace-control markers
     res.rule("C12.R5", "every tag / output / comment opening printed by a __str__ carries a whitespace-control marker pair taken from a token (wc[0] after the opener, wc[1]/wc[-1] before the closer)")
@@ -504,3 +509,481 @@ def run(prog: Program, res: Result) -> None:  # noqa: PLR0912, PLR0915
                 res.fail("C12.R9", file=c.file, line=h.lineno, qualname=m_.qualname, construct=f"{m_.qualname} inspects `{norm(h, 50)}`", message=f"{m_.qualname} decides behaviour from a token kind (`{norm(h, 50)}`): the printer emits the value only, so after str() and reparse the kind - and the behaviour - can differ", what=f"{m_.qualname} does not inspect token kinds")
     res.floor("C12.R9", "render/evaluate-side methods scanned for token-kind tests", n_r9, 200)
     res.ok("C12.R9", "liquid2 AST classes", f"{n_r9} methods", "none inspects a token kind")
+
+    # ------------------------------------------------------------------ R10 printer/parser agreement on grouping
+    res.rule("C12.R10", "for every operator tree up to depth 3 the text printed by BooleanExpression.__str__ (symbolic evaluation of the printers' source) re-parses - with the precedence table, right-operand precedence and greedy `not` read from the parser's source - to the same tree (modulo associativity of and/or chains)")
+    _grouping_rule(prog, res)
+
+    # ------------------------------------------------------------------ R11 string writer / reader agreement
+    res.rule("C12.R11", "string text is printed with escapes the decoder (unescape._decode_escape_sequence) maps back to the same characters: no Python repr() in a printer, backslash escaped first, `${` escaped, no escape letter outside the decoder's table")
+    _string_writer_rule(prog, res)
+
+    # ------------------------------------------------------------------ R12 number writer / reader agreement
+    res.rule("C12.R12", "FloatLiteral/IntegerLiteral print (symbolic evaluation of their __str__ on one value per repr() shape: plain, exponent with/without point, negative exponent, infinities) text that the lexer's FLOAT/INT rules read back as the same kind of literal with the same value")
+    _number_writer_rule(prog, res)
+
+    # ------------------------------------------------------------------ R13 names that may be quoted strings
+    res.rule("C12.R13", "a field filled from parse_string_or_identifier() (block, macro, call, cycle, increment/decrement names, include/render aliases) is never interpolated bare by the node's __str__: it goes through a quoting helper")
+    _identifier_printing_rule(prog, res)
+
+
+def _grouping_rule(prog: Program, res: Result) -> None:  # noqa: PLR0912, PLR0915
+    from itertools import product
+
+    from sa.symprint import PrattModel
+    from sa.symprint import Sym
+    from sa.symprint import SymEval
+    from sa.symprint import Unsupported
+
+    ex = prog.mod("liquid2/builtin/expressions.py")
+    rel = ex.relpath
+    # ---- facts read from the parser
+    consts: dict[str, int] = {}
+    for st in ex.tree.body:
+        if isinstance(st, ast.Assign) and len(st.targets) == 1 and isinstance(st.targets[0], ast.Name) and st.targets[0].id.startswith("PRECEDENCE_") and isinstance(st.value, ast.Constant):
+            consts[st.targets[0].id] = st.value.value
+    prec_tbl = ex.globals_.get("PRECEDENCES")
+    if not isinstance(prec_tbl, ast.Dict) or not consts:
+        raise AnalysisError("PRECEDENCES / PRECEDENCE_* constants not found in expressions.py")
+    tok_prec: dict[str, int] = {}
+    for k, v in zip(prec_tbl.keys, prec_tbl.values):
+        if isinstance(k, ast.Attribute) and isinstance(v, ast.Name) and v.id in consts:
+            tok_prec[k.attr] = consts[v.id]
+    pie = ex.functions.get("parse_infix_expression")
+    pbp = ex.functions.get("parse_boolean_primitive")
+    if pie is None or pbp is None:
+        raise AnalysisError("parse_infix_expression / parse_boolean_primitive vanished")
+    arms: dict[str, str] = {}
+    for m in ast.walk(pie.node):
+        if isinstance(m, ast.match_case) and isinstance(m.pattern, ast.MatchValue) and isinstance(m.pattern.value, ast.Attribute):
+            ret = next((r for r in ast.walk(m) if isinstance(r, ast.Return) and isinstance(r.value, ast.Call) and isinstance(r.value.func, ast.Name)), None)
+            if ret is None:
+                continue
+            call = ret.value
+            rec = call.args[2] if len(call.args) == 3 else None
+            if not (isinstance(rec, ast.Call) and isinstance(rec.func, ast.Name) and rec.func.id == "parse_boolean_primitive" and len(rec.args) == 3 and isinstance(rec.args[2], ast.Name) and rec.args[2].id == "precedence" and norm(call.args[1]) == "left"):
+                raise AnalysisError(f"parse_infix_expression arm {m.pattern.value.attr}: unexpected shape {norm(call, 80)}")
+            arms[m.pattern.value.attr] = call.func.id
+    if len(arms) < 8 or "precedence = PRECEDENCES.get(token.type_, PRECEDENCE_LOWEST)" not in norm(pie.node, 4000):
+        raise AnalysisError("parse_infix_expression: operator arms / precedence binding not found")
+    loop_txt = norm(pbp.node, 8000)
+    if "PRECEDENCES.get(token.type_, PRECEDENCE_LOWEST) < precedence" not in loop_txt:
+        raise AnalysisError("parse_boolean_primitive: loop exit test `< precedence` not found")
+    lowest = consts.get("PRECEDENCE_LOWEST")
+    dflt = pbp.node.args.defaults[-1] if pbp.node.args.defaults else None
+    if lowest is None or not (isinstance(dflt, ast.Name) and dflt.id == "PRECEDENCE_LOWEST"):
+        raise AnalysisError("parse_boolean_primitive: default precedence is not PRECEDENCE_LOWEST")
+    not_cls = prog.resolve(ex, "LogicalNotExpression")
+    if not isinstance(not_cls, ClassInfo) or "parse" not in not_cls.methods:
+        raise AnalysisError("LogicalNotExpression.parse vanished")
+    npc = [c for c in ast.walk(not_cls.methods["parse"].node) if isinstance(c, ast.Call) and isinstance(c.func, ast.Name) and c.func.id == "parse_boolean_primitive"]
+    if len(npc) != 1:
+        raise AnalysisError("LogicalNotExpression.parse: operand parse call not found")
+    if len(npc[0].args) >= 3:
+        a3 = npc[0].args[2]
+        if not (isinstance(a3, ast.Name) and a3.id in consts):
+            raise AnalysisError("LogicalNotExpression.parse: operand precedence is not a PRECEDENCE_* constant")
+        not_operand_prec = consts[a3.id]
+    else:
+        kwp = next((k.value for k in npc[0].keywords if k.arg == "precedence"), None)
+        not_operand_prec = consts[kwp.id] if isinstance(kwp, ast.Name) and kwp.id in consts else lowest
+    res.stats["C12.R10.parser_facts"] = {"precedence_by_token": tok_prec, "arms": arms, "not_operand_precedence": not_operand_prec, "lowest": lowest}
+
+    # ---- symbols printed by each operator class
+    E = SymEval(prog)
+    a, b, c3, d = (Sym(None, name=n) for n in "abcd")
+    cls_of: dict[str, ClassInfo] = {}
+    infix_tbl: dict[str, tuple[str, int]] = {}
+    try:
+        for tok, cname in arms.items():
+            ci = prog.resolve(ex, cname)
+            if not isinstance(ci, ClassInfo):
+                raise AnalysisError(f"{cname} vanished")
+            cls_of[cname] = ci
+            E.steps = 0
+            txt = E.to_str(Sym(ci, {"left": a, "right": b}))
+            parts = txt.split()
+            if len(parts) != 3 or parts[0] != "a" or parts[2] != "b":
+                raise AnalysisError(f"{cname}.__str__ of (a, b) printed {txt!r}")
+            infix_tbl[parts[1]] = (cname, tok_prec[tok])
+        E.steps = 0
+        ntxt = E.to_str(Sym(not_cls, {"expression": a})).split()
+        if len(ntxt) != 2 or ntxt[1] != "a":
+            raise AnalysisError(f"LogicalNotExpression.__str__ of (a) printed {' '.join(ntxt)!r}")
+        prefix_tbl = {ntxt[0]: "LogicalNotExpression"}
+    except Unsupported as err:
+        res.not_decided.append(f"C12.R10: the printers use a construct the symbolic evaluator does not model ({err})")
+        res.fail("C12.R10", file=rel, line=1, qualname="BooleanExpression.__str__", construct=f"printer not evaluable: {err}", message=f"grouping agreement could not be evaluated: {err}", what="printer is in the modelled subset")
+        return
+    cls_of["LogicalNotExpression"] = not_cls
+    model = PrattModel(infix=infix_tbl, prefix=prefix_tbl, prefix_operand_precedence=not_operand_prec, lowest=lowest, right_absorbs_equal=True)
+    be = prog.resolve(ex, "BooleanExpression")
+    if not isinstance(be, ClassInfo):
+        raise AnalysisError("BooleanExpression vanished")
+
+    def mk(t):  # noqa: ANN001, ANN202
+        if isinstance(t, str):
+            return {"a": a, "b": b, "c": c3, "d": d}.get(t) or Sym(None, name=t)
+        if len(t) == 2:
+            return Sym(cls_of[t[0]], {"expression": mk(t[1])})
+        return Sym(cls_of[t[0]], {"left": mk(t[1]), "right": mk(t[2])})
+
+    def canon(t):  # noqa: ANN001, ANN202
+        """Flatten chains of the same associative operator (and/or) - they mean the same however they nest."""
+        if isinstance(t, str):
+            return t
+        if len(t) == 2:
+            return (t[0], canon(t[1]))
+        if t[0] in ("LogicalAndExpression", "LogicalOrExpression"):
+            items: list = []
+
+            def flat(x):  # noqa: ANN001, ANN202
+                if not isinstance(x, str) and len(x) == 3 and x[0] == t[0]:
+                    flat(x[1])
+                    flat(x[2])
+                else:
+                    items.append(canon(x))
+
+            flat(t)
+            return (t[0], tuple(items))
+        return (t[0], canon(t[1]), canon(t[2]))
+
+    names = sorted(cls_of)
+    infix_names = [n for n in names if n != "LogicalNotExpression"]
+    leaves = ["a", "b", "c", "d"]
+
+    def trees(depth: int, pool: list[str], leaf_iter):  # noqa: ANN001, ANN202
+        if depth == 0:
+            return [next(leaf_iter)]
+        out = [next(leaf_iter)]
+        return out
+
+    # depth-2: every parent class over every child class (or leaf) on each side
+    shapes: list = []
+    kids = ["leaf"] + names
+    for p in names:
+        if p == "LogicalNotExpression":
+            for k in kids:
+                shapes.append((p, "a" if k == "leaf" else ((k, "a") if k == "LogicalNotExpression" else (k, "a", "b"))))
+            continue
+        for lk, rk in product(kids, kids):
+            lt = "a" if lk == "leaf" else ((lk, "a") if lk == "LogicalNotExpression" else (lk, "a", "b"))
+            rt = "c" if rk == "leaf" else ((rk, "c") if rk == "LogicalNotExpression" else (rk, "c", "d"))
+            shapes.append((p, lt, rt))
+    # depth-3 over one representative per precedence level
+    reps: list[str] = []
+    seen_prec: set[int] = set()
+    for sym_, (cn, pr) in sorted(infix_tbl.items(), key=lambda kv: (kv[1][1], kv[0])):
+        if pr not in seen_prec:
+            seen_prec.add(pr)
+            reps.append(cn)
+    d2 = ["a"] + [(r, "a", "b") for r in reps] + [("LogicalNotExpression", "a")]
+    for p in reps + ["LogicalNotExpression"]:
+        for x in d2:
+            if p == "LogicalNotExpression":
+                for q in reps:
+                    shapes.append((q, (p, x), "c"))
+                    shapes.append((q, "c", (p, x)))
+                continue
+            for q in reps:
+                shapes.append((q, (p, x, "c"), "d"))
+                shapes.append((q, "d", (p, x, "c")))
+                shapes.append((q, (p, "c", x), "d"))
+                shapes.append((q, "d", (p, "c", x)))
+    res.floor("C12.R10", "operator trees enumerated", len(shapes), 1000)
+    bad: dict[str, list[str]] = {}
+    n_ok = 0
+    for t in shapes:
+        E.steps = 0
+        try:
+            txt = E.to_str(Sym(be, {"expression": mk(t)}))
+        except Unsupported as err:
+            res.fail("C12.R10", file=rel, line=1, qualname="BooleanExpression.__str__", construct=f"printer not evaluable: {err}", message=f"grouping agreement could not be evaluated: {err}", what="printer is in the modelled subset")
+            return
+        try:
+            back = model.parse(txt)
+            same = canon(back) == canon(t)
+            why = f"`{txt}` re-parses as {back}"
+        except ValueError as err:
+            same = False
+            why = f"`{txt}` does not re-parse ({err})"
+        if same:
+            n_ok += 1
+            continue
+        # attribute the loss to the innermost printer whose operand lost its grouping: the top class of the tree
+        owner = t[0]
+        bad.setdefault(owner, []).append(f"{t} -> {why}")
+    res.stats["C12.R10.trees"] = len(shapes)
+    res.stats["C12.R10.trees_agreeing"] = n_ok
+    for cname in names:
+        ci = cls_of[cname]
+        sm = ci.methods.get("__str__")
+        site = f"{rel}:{sm.node.lineno if sm else ci.node.lineno} {cname}.__str__"
+        what = f"trees rooted at {cname} print to text that re-parses to the same tree"
+        if cname not in bad:
+            res.ok("C12.R10", site, what, "all enumerated trees agree")
+        else:
+            ex_ = bad[cname][0]
+            res.fail("C12.R10", file=rel, line=sm.node.lineno if sm else ci.node.lineno, qualname=f"{cname}.__str__", construct=f"{cname}: grouping lost for {len(bad[cname])} tree shape(s)", message=f"{len(bad[cname])} operator tree(s) rooted at {cname} are printed without the parentheses the parser needs, e.g. {ex_}: str(template) re-parses to a different condition", what=what)
+
+
+def _collect_helpers(prog: Program, roots: list, out: dict) -> None:
+    work = list(roots)
+    seen: set[str] = set()
+    while work:
+        f = work.pop()
+        if f.fid in seen:
+            continue
+        seen.add(f.fid)
+        for c in ast.walk(f.node):
+            if isinstance(c, ast.Call) and isinstance(c.func, ast.Name):
+                r = prog.resolve(f.module, c.func.id)
+                if hasattr(r, "fid") and hasattr(r, "node") and r.fid not in seen and r.module.relpath.startswith("liquid2/") and not r.name.startswith("parse"):
+                    out[r.fid] = r
+                    work.append(r)
+
+
+def _string_writer_rule(prog: Program, res: Result) -> None:  # noqa: PLR0912
+    """C12.R11: what the string printers write is what the string decoder reads."""
+    un = prog.mod("liquid2/unescape.py")
+    dec = un.functions.get("_decode_escape_sequence")
+    if dec is None:
+        raise AnalysisError("_decode_escape_sequence vanished")
+    reader = {c.comparators[0].value for c in ast.walk(dec.node) if isinstance(c, ast.Compare) and isinstance(c.left, ast.Name) and c.left.id == "ch" and len(c.ops) == 1 and isinstance(c.ops[0], ast.Eq) and isinstance(c.comparators[0], ast.Constant) and isinstance(c.comparators[0].value, str)}
+    res.floor("C12.R11", "escape letters accepted by the decoder", len(reader), 8)
+    res.stats["C12.R11.decoder_letters"] = sorted(reader)
+    py_repr_letters = {"\\", "'", '"', "n", "r", "t", "x", "u", "U"}
+    node_base = prog.cls("liquid2.ast.Node")
+    expr_base = prog.cls("liquid2.expression.Expression")
+    tok_base = prog.cls("liquid2.token.TokenT")
+    printers = []
+    for c in sorted(set(prog.subclasses(node_base)) | set(prog.subclasses(expr_base)) | set(prog.subclasses(tok_base)), key=lambda x: x.full):
+        m = c.methods.get("__str__")
+        if m is not None:
+            printers.append(m)
+    # helpers reachable from the printers (module-level functions of the same module); the escaping obligations below
+    # concern printers of *decoded* text (AST classes) - token classes hold source text that is still escaped
+    all_helpers: dict[str, object] = {}
+    helpers: dict[str, object] = {}
+    for group, store in ((printers, all_helpers), ([m for m in printers if m.cls is not None and not prog.is_subclass(m.cls, tok_base)], helpers)):
+        _collect_helpers(prog, group, store)
+    work = []
+    seen: set[str] = set()
+    while work:
+        f = work.pop()
+        if f.fid in seen:
+            continue
+        seen.add(f.fid)
+        for c in ast.walk(f.node):
+            if isinstance(c, ast.Call) and isinstance(c.func, ast.Name):
+                r = prog.resolve(f.module, c.func.id)
+                if hasattr(r, "fid") and hasattr(r, "node") and r.fid not in seen and r.module.relpath.startswith("liquid2/") and not r.name.startswith("parse"):
+                    helpers[r.fid] = r
+                    work.append(r)
+    n_sites = 0
+    for f in printers + list(all_helpers.values()):
+        for n in ast.walk(f.node):
+            hit = None
+            if isinstance(n, ast.Call) and isinstance(n.func, ast.Name) and n.func.id == "repr" and n.args:
+                hit = n.args[0]
+            elif isinstance(n, ast.FormattedValue) and n.conversion == ord("r"):
+                hit = n.value
+            if hit is None:
+                continue
+            if any(isinstance(a, ast.Assert) for a in f.module.ancestors(n)):
+                continue
+            if f.cls is not None and any(b.replace(" ", "") in ("Literal[float]", "Literal[int]", "Literal[bool]") for b in f.cls.base_exprs) and norm(hit) == "self.value":
+                res.ok("C12.R11", f"{f.file}:{n.lineno} {f.qualname}", f"{f.qualname}: repr() of a number", f"{f.cls.name} is declared {f.cls.base_exprs}: its value is not a string (number forms are R12's business)")
+                continue
+            if f.cls is not None and f.cls.name == "Literal":
+                # the generic literal printer: fine for numbers as long as no str-valued literal class inherits it
+                str_lits = [k for k in prog.subclasses(f.cls, strict=True) if any("[str]" in b for b in k.base_exprs)]
+                if str_lits and all("__str__" in k.methods for k in str_lits):
+                    res.ok("C12.R11", f"{f.file}:{n.lineno} {f.qualname}", "Literal.__str__ (repr) is not the printer of any string-valued literal", f"{[k.name for k in str_lits]} override __str__")
+                    continue
+            n_sites += 1
+            missing = sorted(py_repr_letters - reader - {"'", '"'})
+            res.fail("C12.R11", file=f.file, line=n.lineno, qualname=f.qualname, construct=f"{f.qualname} prints `{norm(hit, 40)}` with Python repr()", message=f"{f.qualname} quotes `{norm(hit, 40)}` with Python's repr(): it writes escapes the Liquid decoder rejects ({', '.join(chr(92) + m for m in missing)}) and leaves `${{` unescaped, so the printed literal re-parses to a different string (or not at all)", what=f"{f.qualname}: string printed with Liquid's own escapes")
+    # the escape helper(s): chains of .replace(<const>, <const beginning with a backslash>)
+    n_help = 0
+    for h in helpers.values():
+        pairs: list[tuple[int, str, str]] = []
+        for c in ast.walk(h.node):
+            if isinstance(c, ast.Call) and isinstance(c.func, ast.Attribute) and c.func.attr == "replace" and len(c.args) == 2 and all(isinstance(a, ast.Constant) and isinstance(a.value, str) for a in c.args) and c.args[1].value.startswith("\\"):
+                depth = 0
+                x = c.func.value
+                while isinstance(x, ast.Call) and isinstance(x.func, ast.Attribute) and x.func.attr == "replace":
+                    depth += 1
+                    x = x.func.value
+                pairs.append((depth, c.args[0].value, c.args[1].value))
+        if not pairs:
+            continue
+        n_help += 1
+        pairs.sort()
+        site = f"{h.file}:{h.node.lineno} {h.qualname}"
+        letters = {p[2][1] for p in pairs if len(p[2]) > 1}
+        problems = []
+        bad_letters = sorted(letters - reader - {"'", '"'})
+        if bad_letters:
+            problems.append(f"writes escapes the decoder rejects: {bad_letters}")
+        if pairs[0][1] != "\\" or pairs[0][2] != "\\\\":
+            problems.append("the backslash is not escaped first (later replacements would be doubled or a lone backslash survives)")
+        if not any(src == "${" and dst.startswith("\\$") for _d, src, dst in pairs):
+            problems.append("`${` is not escaped (printed text is re-parsed as interpolation)")
+        for _d, src, dst in pairs:
+            if len(dst) >= 2 and dst[1] in reader and dst[1] in "nrtbf":
+                want = {"n": "\n", "r": "\r", "t": "\t", "b": "\x08", "f": "\x0c"}[dst[1]]
+                if src != want:
+                    problems.append(f"{src!r} is written as {dst!r}, which decodes to {want!r}")
+        what = f"{h.qualname}: every escape written is one the decoder reads back to the same character"
+        if problems:
+            res.fail("C12.R11", file=h.file, line=h.node.lineno, qualname=h.qualname, construct=f"{h.qualname}: " + "; ".join(problems), message=f"the string escaper {h.qualname} and the decoder disagree: " + "; ".join(problems), what=what)
+        else:
+            res.ok("C12.R11", site, what, f"pairs {[(s_, d_) for _x, s_, d_ in pairs]}")
+    res.floor("C12.R11", "string escape helpers used by the printers", n_help, 1)
+    # the three kinds of string-valued syntax go through an escaping helper
+    ex = prog.mod("liquid2/builtin/expressions.py")
+    for cname in ("StringLiteral", "TemplateString", "Path"):
+        ci = prog.resolve(ex, cname)
+        m = prog.find_method(ci, "__str__") if isinstance(ci, ClassInfo) else None
+        what = f"{cname}.__str__ quotes its text through an escaping helper"
+        calls = {c.func.id for c in ast.walk(m.node) if isinstance(c, ast.Call) and isinstance(c.func, ast.Name)} if m is not None else set()
+        used = [h.name for h in helpers.values() if h.name in calls and any(isinstance(c, ast.Call) and isinstance(c.func, ast.Attribute) and c.func.attr == "replace" for c in ast.walk(h.node))]
+        if m is not None and m.cls is not None and m.cls.name != "Literal" and used:
+            res.ok("C12.R11", f"{m.file}:{m.node.lineno} {cname}.__str__", what, f"calls {sorted(used)}")
+        else:
+            res.fail("C12.R11", file=ex.relpath, line=m.node.lineno if m else 1, qualname=f"{cname}.__str__", construct=f"{cname}.__str__ does not escape its text", message=f"{cname}.__str__ prints string text without the Liquid escaping helper: quotes, backslashes or `${{` in the text change the meaning of the printed literal", what=what)
+    res.stats["C12.R11.repr_sites"] = n_sites
+
+
+def _number_writer_rule(prog: Program, res: Result) -> None:
+    """C12.R12: printed number literals are read back as the same kind of literal with the same value."""
+    import re as _re
+
+    from sa.symprint import Sym
+    from sa.symprint import SymEval
+    from sa.symprint import Unsupported
+
+    lexer = prog.cls("liquid2.lexer.Lexer")
+    rules = None
+    for n in ast.walk(lexer.node):
+        if isinstance(n, ast.Dict):
+            cand = {k.value: vv.value for k, vv in zip(n.keys, n.values) if isinstance(k, ast.Constant) and isinstance(vv, ast.Constant) and isinstance(vv.value, str)}
+            if "FLOAT" in cand and "INT" in cand:
+                rules = cand
+                break
+    if not rules:
+        raise AnalysisError("lexer FLOAT/INT token rules not found")
+    order = list(rules)
+    f_re, i_re = _re.compile(rules["FLOAT"]), _re.compile(rules["INT"])
+    if order.index("FLOAT") > order.index("INT"):
+        res.fail("C12.R12", file=lexer.file, line=lexer.node.lineno, qualname="Lexer", construct="INT rule tried before FLOAT", message="the INT token rule precedes FLOAT: a float literal is cut at its decimal point", what="FLOAT before INT")
+    ex = prog.mod("liquid2/builtin/expressions.py")
+    E = SymEval(prog)
+    samples_f = [1.5, 2.0, 0.1, -0.0, 1e20, -1e20, 1.5e20, 1e-7, 1.5e-7, 1e16, 123456789012345678.0, 5e-324, 1.7976931348623157e308, float("inf"), float("-inf")]
+    samples_i = [0, 7, -7, 10**20, -(10**30)]
+    for cname, samples, kind in (("FloatLiteral", samples_f, "FLOAT"), ("IntegerLiteral", samples_i, "INT")):
+        ci = prog.resolve(ex, cname)
+        if not isinstance(ci, ClassInfo):
+            raise AnalysisError(f"{cname} vanished")
+        sm = prog.find_method(ci, "__str__")
+        line = sm.node.lineno if sm else ci.node.lineno
+        bad = []
+        for v in samples:
+            E.steps = 0
+            try:
+                txt = E.to_str(Sym(ci, {"value": v}))
+            except Unsupported as err:
+                res.not_decided.append(f"C12.R12: {cname}.__str__ uses a construct the symbolic evaluator does not model ({err})")
+                bad.append(f"{v!r}: not evaluable ({err})")
+                break
+            mf, mi = f_re.fullmatch(txt), i_re.fullmatch(txt)
+            got = "FLOAT" if mf else ("INT" if mi else "neither a FLOAT nor an INT token")
+            if got != kind:
+                bad.append(f"{v!r} is printed `{txt}`, which the lexer reads as {got}")
+            elif kind == "FLOAT" and float(txt) != v:
+                bad.append(f"{v!r} is printed `{txt}`, which reads back as {float(txt)!r}")
+        site = f"{ex.relpath}:{line} {cname}.__str__"
+        what = f"{cname}.__str__: every printed form lexes as {kind} with the same value"
+        if bad:
+            res.fail("C12.R12", file=ex.relpath, line=line, qualname=f"{cname}.__str__", construct=f"{cname}: {len(bad)} printed form(s) read back differently", message=f"{cname}.__str__ prints forms the lexer does not read back as a {kind} literal of the same value: {'; '.join(bad[:3])}", what=what)
+        else:
+            res.ok("C12.R12", site, what, f"{len(samples)} representative values, one per repr() shape")
+
+
+def _identifier_printing_rule(prog: Program, res: Result) -> None:  # noqa: PLR0912
+    """C12.R13: a name that may have been written as a quoted string is printed through a quoting helper."""
+    n_fields = 0
+    for f in prog.all_functions():
+        holders: dict[str, ast.AST] = {}
+        inline: list[ast.Call] = []
+        for n in ast.walk(f.node):
+            tgt = val = None
+            if isinstance(n, ast.Assign) and len(n.targets) == 1:
+                tgt, val = n.targets[0], n.value
+            elif isinstance(n, ast.AnnAssign) and n.value is not None:
+                tgt, val = n.target, n.value
+            if isinstance(tgt, ast.Name) and isinstance(val, ast.Call) and (dotted(val.func) or "").split(".")[-1] == "parse_string_or_identifier":
+                holders[tgt.id] = n
+        if not holders and not any(isinstance(c, ast.Call) and (dotted(c.func) or "").split(".")[-1] == "parse_string_or_identifier" for c in ast.walk(f.node)):
+            continue
+        # constructor calls that receive such a value
+        for c in ast.walk(f.node):
+            if not isinstance(c, ast.Call):
+                continue
+            target_cls = None
+            d = dotted(c.func) or ""
+            if d == "self.node_class" and f.cls is not None:
+                for k in prog.mro(f.cls):
+                    nc = k.class_attrs.get("node_class")
+                    if nc is not None:
+                        r = prog.resolve(k.module, dotted(nc) or "")
+                        if isinstance(r, ClassInfo):
+                            target_cls = r
+                        break
+            else:
+                r = prog.resolve(f.module, d) if d else None
+                if isinstance(r, ClassInfo) and (prog.is_subclass(r, "liquid2.ast.Node") or prog.is_subclass(r, "liquid2.expression.Expression")):
+                    target_cls = r
+            if target_cls is None:
+                continue
+            init = prog.find_method(target_cls, "__init__")
+            if init is None:
+                continue
+            params = init.params()[1:]
+            passed: list[str] = []
+            for i, a in enumerate(c.args):
+                is_id = (isinstance(a, ast.Name) and a.id in holders) or (isinstance(a, ast.Call) and (dotted(a.func) or "").split(".")[-1] == "parse_string_or_identifier")
+                if is_id and i < len(params):
+                    passed.append(params[i])
+            for kw in c.keywords:
+                a = kw.value
+                is_id = (isinstance(a, ast.Name) and a.id in holders) or (isinstance(a, ast.Call) and (dotted(a.func) or "").split(".")[-1] == "parse_string_or_identifier")
+                if is_id and kw.arg:
+                    passed.append(kw.arg)
+            for pname in passed:
+                attrs = [t.attr for s_ in ast.walk(init.node) if isinstance(s_, ast.Assign) and isinstance(s_.value, ast.Name) and s_.value.id == pname for t in s_.targets if is_self_attr(t)]
+                sm = prog.find_method(target_cls, "__str__")
+                if sm is None:
+                    continue
+                for attr in attrs:
+                    n_fields += 1
+                    bare = []
+                    for u in ast.walk(sm.node):
+                        if not (is_self_attr(u, attr) and isinstance(u.ctx, ast.Load)):
+                            continue
+                        par = sm.module.parent(u)
+                        if isinstance(par, ast.Call) and u in par.args:
+                            continue  # handed to a helper
+                        if isinstance(par, (ast.If, ast.IfExp)) and par.test is u:
+                            continue  # presence test
+                        if isinstance(par, (ast.BoolOp, ast.Compare, ast.UnaryOp)):
+                            continue
+                        bare.append(u)
+                    site = f"{sm.file}:{sm.node.lineno} {target_cls.name}.__str__"
+                    what = f"{target_cls.name}.{attr} (parsed by parse_string_or_identifier in {f.qualname}) is printed through a quoting helper"
+                    if bare:
+                        res.fail("C12.R13", file=sm.file, line=bare[0].lineno, qualname=f"{target_cls.name}.__str__", construct=f"{target_cls.name}.__str__ prints self.{attr} bare", message=f"{f.qualname} accepts a quoted string for `{attr}` (parse_string_or_identifier) but {target_cls.name}.__str__ interpolates self.{attr} as it is: a name with a space, quote or other non-word character is printed unquoted and the text no longer parses to the same tag", what=what)
+                    else:
+                        res.ok("C12.R13", site, what, "every use is an argument of a helper call or a presence test")
+    res.floor("C12.R13", "fields holding string-or-identifier names", n_fields, 8)
